@@ -189,3 +189,40 @@ Proof.
   - rewrite cav_off_row4, mean2_4, mean2_5. cbn [c4 c5]. field.
   - apply T566_off_neq0; assumption.
 Qed.
+
+Definition S_w : M7 R :=
+  mk7 (row 2 0 0 0 2 0 0) (row 0 0 0 0 0 0 0) (row 0 0 0 0 0 0 0) (row 0 0 0 0 0 0 0)
+      (row 2 0 0 0 2 0 0) (row 0 0 0 0 0 0 0) (row 0 0 0 0 0 0 0).
+Lemma cov_w : rcov [mk7 1 0 0 0 1 0 1; mk7 (-1) 0 0 0 (-1) 0 1] = S_w.
+Proof.
+  unfold S_w, row.
+  lazy beta iota zeta delta [cov dev mean vsum msum mscale madd outer vscale vadd vsub v7map v7map2 vzero Z7
+    length of_nat fold_right map Nat.sub c0 c1 c2 c3 c4 c5 c6].
+  apply v7_eq; lazy beta iota delta [c0 c1 c2 c3 c4 c5 c6]; apply v7_eq; lazy beta iota delta [c0 c1 c2 c3 c4 c5 c6]; field.
+Qed.
+
+(** F2, third consequence: the covariance that Cavity.track(ParameterBeam) returns is not positive
+    semi-definite.  Witness: two particles at (x, tau) = +-(1, 1) through a zero-voltage cavity: the overwritten
+    cov[4,4] is 0 while cov[0,4] = 2 cx survives, so v = (1,0,0,0,-cx,0,0) gives v^T S v = -2 cx^2 < 0
+    (cx = cos(sqrt(1e-12) L), the (0,0) entry of the map; cx = 1 for L = 0). *)
+Theorem cavity_param_not_psd_refuted : forall L phi f E q1 q2, 0 < E ->
+  let b := mkPart [mk7 1 0 0 0 1 0 1; mk7 (-1) 0 0 0 (-1) 0 1] E [q1; q2] [1; 1] in
+  let c := cx L 0 0 in
+  rqform (pcov (cavity_param L 0 phi f (rmoments b))) (mk7 1 0 0 0 (- c) 0 0) = - 2 * c ^ 2.
+Proof.
+  intros L phi f E q1 q2 HE b c. subst b. unfold cavity_param, moments. cbn [pE qE parts pmu pcov]. rewrite off_E1.
+  destruct (Rlt_dec 0 E) as [_|Hn]; [|contradiction]. cbn [pcov]. rewrite cov_w.
+  rewrite off_quad.
+  unfold cav_tm, cavity_off_map, base_rmatrix. rewrite !Req_EM_T_refl. unfold base_untilted, row, S_w.
+  fold c. set (s := sx L 0 0). set (d := dx L 0 0 / beta_of E). set (k := kx2 0 0). set (r := r56 L 0 0 E).
+  set (cy' := cy L 0). set (sy' := sy L 0). set (ky := ky2 0). set (T := cav_T566_off L E).
+  unfold row.
+  lazy beta iota zeta delta [qform dot mvec cong mmul transpose col v7map c0 c1 c2 c3 c4 c5 c6].
+  unfold Rdiv. ring.
+Qed.
+
+Lemma cx_L0 : cx 0 0 0 = 1.
+Proof.
+  unfold cx, Cf. destruct (Rlt_dec 0 (kx2 0 0)); [rewrite Rmult_0_r; apply cos_0|].
+  destruct (Rlt_dec (kx2 0 0) 0); [rewrite Rmult_0_r; apply cosh_0|reflexivity].
+Qed.
